@@ -132,4 +132,11 @@ CHECKS = {
          "boundary edges/sites are those with incidence 1, lie on the outline and add up to the perimeter, V-E+T = 1-holes, edge vectors/lengths/centres match the site pairs; for every site/edge whose incident triangles are Delaunay with circumcentres inside the domain "
          "(98% of sites) the cell area / dual length equals the clipped Voronoi cell area / face length computed by half-plane clipping with shapely (1e-9; observed 6e-13); terminal lengths match the covered outline to within two boundary edges."),
    note="geometries limited to the primitive alphabet; meshes the library itself refuses ('Malformed Voronoi cell') are counted as refused; non-Delaunay regions (heavy smoothing) are outside the statement and only counted"),
+ "C19": dict(
+   engine="mc-core", category="fault_enumeration", design_ref="DESIGN.md 3/C19",
+   technique="exhaustive enumeration of ill-posed input classes x devices x defect magnitudes x output destinations x validator seeds, with a file-system / handle audit after each rejection and a positive control per class",
+   text=("Every variant of the classes (unbalanced constant and callable currents, unknown terminal, epsilon > 1 in 4 forms, each SolverOptions rule, empty terminals, foreign seed solutions in 5 forms, vector potentials of wrong shape, invalid polygons, "
+         "invalid device definitions) is instantiated on each device, at defect magnitudes 1, 1e-3 and 1e-6 where a magnitude exists, with and without an explicit (nested) output path and for each seed of the current validator's random times; "
+         "an exception must be raised and the recursive snapshot of the sandbox and of the private temp directory must be unchanged with no HDF5 handle open. Repaired inputs (controls, incl. rounding-level imbalance 0.1+0.2-0.3) must be accepted."),
+   note="numpy.random.default_rng() is seeded by the harness inside the worker; imbalances confined to windows narrower than T/20 are outside the classes; options not constrained by validate() (save_every=0, dt_init<0) are informational only"),
 }
